@@ -169,7 +169,7 @@ Inv_C01_Prune   == Ends(LAMBDA p : C01_Prune(pre[p], Cur, Sum(p)) \/ Known({"L15
 Act_C01_NextRevision ==
   [][\A p \in Procs : (last'.ev = "call" /\ last'.p = p) => C01_NextRevision(pre[p].store, store, store')]_vars
 \* ---- C02
-Inv_C02_Success   == Ends(LAMBDA p : Sum(p).ok => (C02_Success(pre[p], Cur, Sum(p)) \/ Known({"L6", "L1", "L2u"})))
+Inv_C02_Success   == Ends(LAMBDA p : Sum(p).ok => (C02_Success(pre[p], Cur, Sum(p)) \/ Known({"L6", "L1", "L2u", "L28"})))
 Inv_C02_Uninstall == Ends(LAMBDA p : Sum(p).ok => (C02_Uninstall(pre[p], Cur, Sum(p)) \/ Known({"L7"})))
 Act_C02_Bystanders ==
   [][\A p \in Procs : (last'.ev = "call" /\ last'.p = p) =>
